@@ -28,10 +28,12 @@ type c19Req struct {
 	method         string
 	targetForm     string // v4 v4port v6 v6br v6brport
 	viaHTTP        bool
+	// e2eOnly: the request consists of end-to-end probes only (0 traceroute runs, 1 probe): the TTL window is [max,max]
+	e2eOnly bool
 }
 
 func (r c19Req) String() string {
-	return fmt.Sprintf("ttl=[%d,%d] port=%d proto=%q method=%q target=%s http=%v", r.minTTL, r.maxTTL, r.port, r.proto, r.method, r.targetForm, r.viaHTTP)
+	return fmt.Sprintf("ttl=[%d,%d] port=%d proto=%q method=%q target=%s http=%v e2eOnly=%v", r.minTTL, r.maxTTL, r.port, r.proto, r.method, r.targetForm, r.viaHTTP, r.e2eOnly)
 }
 
 var (
@@ -78,12 +80,19 @@ func checkC19() fw.Check {
 					}
 				}
 			}
-			// protocol and method strings
+			// protocol and method strings, as a traceroute request and as an end-to-end-only request
 			for _, proto := range c19Protos {
 				for _, m := range c19Methods {
 					for _, http := range []bool{false, true} {
-						add(c19Req{minTTL: 1, maxTTL: 3, port: 8080, proto: proto, method: m, targetForm: "v4", viaHTTP: http})
+						for _, e2eOnly := range []bool{false, true} {
+							add(c19Req{minTTL: 1, maxTTL: 3, port: 8080, proto: proto, method: m, targetForm: "v4", viaHTTP: http, e2eOnly: e2eOnly})
+						}
 					}
+				}
+			}
+			for _, mx := range c19TTLs {
+				for _, proto := range []string{"udp", "icmp", "tcp"} {
+					add(c19Req{minTTL: 1, maxTTL: mx, port: 443, proto: proto, method: "syn", targetForm: "v4", e2eOnly: true})
 				}
 			}
 			if tier == "thorough" {
@@ -173,6 +182,9 @@ func runC19(c *fw.Ctx, id string, rq c19Req) {
 	}
 	params := traceroute.TracerouteParams{Hostname: host, Port: rq.port, Protocol: rq.proto, MinTTL: rq.minTTL, MaxTTL: rq.maxTTL, Delay: 1,
 		Timeout: 40 * time.Millisecond, TCPMethod: traceroute.TCPMethod(rq.method), WantV6: v6, TracerouteQueries: 1, E2eQueries: 0}
+	if rq.e2eOnly {
+		params.TracerouteQueries, params.E2eQueries = 0, 1
+	}
 	env, err := newReqEnv(c, params, addr, 0, false)
 	if err != nil {
 		c.Inconclusive(err.Error())
@@ -183,7 +195,7 @@ func runC19(c *fw.Ctx, id string, rq c19Req) {
 	var rerr error
 	if rq.viaHTTP {
 		q := url.Values{"target": {host}, "protocol": {rq.proto}, "port": {fmt.Sprint(rq.port)}, "max-ttl": {fmt.Sprint(rq.maxTTL)}, "timeout": {"40"},
-			"traceroute-queries": {"1"}, "e2e-queries": {"0"}, "tcp-method": {rq.method}, "ipv6": {fmt.Sprint(v6)}}
+			"traceroute-queries": {fmt.Sprint(params.TracerouteQueries)}, "e2e-queries": {fmt.Sprint(params.E2eQueries)}, "tcp-method": {rq.method}, "ipv6": {fmt.Sprint(v6)}}
 		if rq.proto == "" {
 			q.Del("protocol") // absent parameter: the documented default applies
 			q.Set("protocol", "")
@@ -206,6 +218,15 @@ func runC19(c *fw.Ctx, id string, rq c19Req) {
 	minTTL := rq.minTTL
 	if rq.viaHTTP {
 		minTTL = 1
+	}
+	if rq.e2eOnly {
+		if minTTL > rq.maxTTL {
+			// the runs' window is inverted; the end-to-end probe alone ([max,max]) may or may not be considered valid
+			return
+		}
+		if minTTL >= 1 && minTTL <= 255 {
+			minTTL = rq.maxTTL // an end-to-end probe covers exactly the last TTL
+		}
 	}
 	method := rq.method
 	if method == "" {
@@ -281,6 +302,9 @@ func runC19(c *fw.Ctx, id string, rq c19Req) {
 			wantKind = "tcp/" + method
 			if method == "prefer_sack" || method == "syn_socket" {
 				wantKind = kind // decided by C20 / platform
+			}
+			if rq.e2eOnly && (method == "sack" || method == "prefer_sack") {
+				wantKind = "tcp/syn" // end-to-end probes use SYN whatever the (valid) method
 			}
 		}
 		if kind != wantKind {
